@@ -21,6 +21,8 @@ func main() {
 		rep = suiteGet(*tier, *seed, *model)
 	case "C11":
 		rep = suiteEvaluators(*tier, *seed, *model)
+	case "C14":
+		rep = suiteText(*tier, *seed, *model)
 	case "C13":
 		rep = suiteMutate(*tier, *seed, *model)
 	case "C12":
